@@ -164,7 +164,14 @@ def decode_via(path, data):
         a = bp.APDU()
         a.decode(pdu)
         if path == "APDU":
-            return ("header", read_fields(a), bytes(a.pduData))
+            # "payload untouched": the decoded APDU owns its payload; what happens to the source buffer afterwards
+            # (a receive buffer being reused) must not change it
+            kept = bytes(a.pduData)
+            pdu.put(0xAA)
+            pdu.put(0x55)
+            if bytes(a.pduData) != kept:
+                return ("raises", "decoded-payload-changes-when-the-source-buffer-is-written-to")
+            return ("header", read_fields(a), kept)
         cls = bp.apdu_types.get(a.apduType)
         if cls is None:
             return ("raises", "no-class-registered-for-type-%r" % (a.apduType,))
